@@ -3,7 +3,9 @@
    proofs: PP.Proofs.C22. *)
 From Coq Require Import List ZArith Arith Lia Sorted Permutation.
 Import ListNotations.
-From PP Require Import Model.C22 Proofs.C22.
+From Coq Require Import QArith.
+From PP Require Import Model.C22 Proofs.C22 Model.C19 Model.C22_geom Proofs.C22_geom2d Proofs.C22_onto.
+Close Scope Q_scope.
 
 (* Extraction, index maps.  For EVERY pair of incidence matrices (cell_faces, face_nodes:
    any lists of columns, any values), every index list or boolean mask and both values
@@ -66,6 +68,32 @@ Theorem C22_geometry :
 Proof. exact geometry_theorem. Qed.
 Print Assumptions C22_geometry.
 
+(* Extraction, recomputed geometry in 2-D.  [geometry2] is the C19 transcription of
+   Grid._compute_geometry_2d (oriented branch: orientation checks, plane orientation sign,
+   face areas/centres/normals, cell volumes/centres; exact over Q); [to_grid2] reads an
+   incidence pair with two-node faces as a grid of that model.  If the parent's geometry is
+   computed by the oriented branch and at least one extracted cell has positive volume,
+   then compute_geometry on the extracted subgrid (nodes g.nodes[:, unique_nodes]) also
+   takes the oriented branch and returns exactly the parent's values at the extracted
+   cells (volumes, centres) and faces (squared areas, centres, normals - orientation
+   included). *)
+Theorem C22_geometry_2d :
+  forall (nodes : list pt) (cf fn : csc) (c : cells) (sort : bool) (sg : subgrid) (r : geom2),
+  extract_subgrid cf fn c sort = Ok sg ->
+  two_nodes fn (sg_faces sg) ->
+  let g := to_grid2 nodes cf fn in
+  let g' := to_grid2 (take_nodes (0%Q, 0%Q) nodes (sg_nodes sg)) (sg_cf sg) (sg_fn sg) in
+  geometry2 g = GOk r ->
+  (exists i, i < length (sg_cells sg) /\ (0 < nth (nth i (sg_cells sg) 0%nat) (o_vol r) 0)%Q) ->
+  exists r', geometry2 g' = GOk r' /\
+    o_vol r' = map (fun k => nth k (o_vol r) 0%Q) (sg_cells sg) /\
+    o_cc r' = map (fun k => nth k (o_cc r) (0%Q, 0%Q)) (sg_cells sg) /\
+    o_area2 r' = map (fun f => nth f (o_area2 r) 0%Q) (sg_faces sg) /\
+    o_fc r' = map (fun f => nth f (o_fc r) (0%Q, 0%Q)) (sg_faces sg) /\
+    o_fn r' = map (fun f => nth f (o_fn r) (0%Q, 0%Q)) (sg_faces sg).
+Proof. exact geometry2_subgrid. Qed.
+Print Assumptions C22_geometry_2d.
+
 (* partition_structured: for every 1-, 2- or 3-dimensional tensor grid and all coarse
    dimensions with 1 <= coarse_i <= fine_i the call returns one part id per cell, each
    within [0, prod coarse). *)
@@ -78,6 +106,16 @@ Theorem C22_structured_partition :
               Forall (fun p => 0 <= p < prodZ coarse)%Z ids.
 Proof. exact structured_partition. Qed.
 Print Assumptions C22_structured_partition.
+
+(* ... and every part id is used: no coarse cell of the requested coarse grid is empty. *)
+Theorem C22_structured_partition_onto :
+  forall (fine coarse ids : list Z),
+  1 <= length fine <= 3 ->
+  Forall2 (fun f c => 1 <= c <= f)%Z fine coarse ->
+  partition_structured fine coarse = Ok ids ->
+  forall p, (0 <= p < prodZ coarse)%Z -> In p ids.
+Proof. exact structured_partition_onto. Qed.
+Print Assumptions C22_structured_partition_onto.
 
 (* ... and when some coarse dimension exceeds the fine one the call raises ValueError
    (np.arange with step 0). *)
@@ -183,4 +221,29 @@ Proof.
     do 9 (destruct c as [|c]; [cbn in Hr; repeat (destruct Hr as [<-|Hr]; [lia|]); contradiction|]).
     destruct c; contradiction.
   - exists 16. split; cbn; tauto.
+Qed.
+
+(* the unit square cut into two triangles; extracting cell 1 *)
+Definition ex2_nodes : list pt := [(0, 0); (1, 0); (0, 1); (1, 1)]%Q.
+Definition ex2_fn : csc :=
+  [[(0, zp); (1, zp)]; [(0, zp); (2, zp)]; [(1, zp); (2, zp)]; [(1, zp); (3, zp)]; [(2, zp); (3, zp)]].
+Definition ex2_cf : csc := [[(0, zp); (1, zm); (2, zp)]; [(2, zm); (3, zp); (4, zm)]].
+
+Example C22_geometry_2d_nonvacuous :
+  (match geometry2 (to_grid2 ex2_nodes ex2_cf ex2_fn) with
+   | GOk r => Qeq_bool (nth 1 (o_vol r) 0%Q) (1 # 2) = true
+   | GFallback => False
+   end) /\
+  (match extract_subgrid ex2_cf ex2_fn (CIdx [1]) true with
+   | Ok sg => sg_faces sg = [2; 3; 4] /\ sg_nodes sg = [1; 2; 3] /\
+              (forall f, In f (sg_faces sg) -> length (nth f ex2_fn []) = 2) /\
+              match geometry2 (to_grid2 (take_nodes (0%Q, 0%Q) ex2_nodes (sg_nodes sg)) (sg_cf sg) (sg_fn sg)) with
+              | GOk r' => Qeq_bool (nth 0 (o_vol r') 0%Q) (1 # 2) = true
+              | GFallback => False
+              end
+   | Err _ => False
+   end).
+Proof.
+  split; [vm_compute; reflexivity|]. vm_compute. repeat split.
+  intros f [<-|[<-|[<-|[]]]]; reflexivity.
 Qed.
